@@ -115,6 +115,22 @@ def handleSerde : List String → String
       | .err e => "err " ++ errStr e
       | .abort => "abort"
     | _, _ => "bad-op"
+  | ["prim", op, pos, len, h] =>
+    -- reader primitives on a `SliceReader` positioned `pos` bytes into the source, called with a
+    -- length that may come from corrupted input (up to `usize::MAX`)
+    match pos.toNat?, len.toNat?, parseHex h with
+    | some pos, some len, some bs =>
+      match readSlice pos bs with
+      | .ok _ rest =>
+        if op = "eor" then (if checkEor len rest then "ok" else "err eof")
+        else match readSlice len rest with
+          | .ok v r =>
+            if op = "string" && !utf8Valid v then "err invalid"
+            else s!"ok x{if v.isEmpty then "" else toHex v} {r.length}"
+          | .err e => "err " ++ errStr e
+          | .abort => "abort"
+      | _ => "bad-op"
+    | _, _, _ => "bad-op"
   | _ => "bad-op"
 
 end Wf.Drv
